@@ -11,3 +11,4 @@ pub mod rollcheck;
 pub mod sut;
 pub mod sut_agg;
 pub mod sut_map;
+pub fn hello_fuzz(d: &[u8]) -> usize { d.len() }
